@@ -83,6 +83,7 @@ def case_strategy(draw):
         st.tuples(st.just("seg"), st.integers(0, n - 1)).map(list),
         st.just("md"), st.just("eof"),
         st.tuples(st.just("eseg"), st.integers(0, n)).map(list),
+        st.tuples(st.just("fdx"), st.integers(0, max(size - 1, 0)), st.integers(1, 2 * seg + 1)).map(list),
     )
     script += draw(st.lists(tail_op, max_size=24))
     return {"cfg": cfg, "size": size, "seg": seg, "script": script, "pat": draw(st.binary(min_size=1, max_size=8))}
@@ -127,6 +128,11 @@ def evaluate(case):
             o = op[1] * seg
             data = content[o : o + seg]
             pdus = [FileDataPdu(conf(), FileDataParams(data, o))]
+        elif kind == "fdx":
+            # a File Data PDU that is not aligned to the grid (a sender that segments differently)
+            o = min(op[1], size - 1)
+            ln = max(1, min(op[2], size - o))
+            pdus = [FileDataPdu(conf(), FileDataParams(content[o : o + ln], o))]
         elif kind == "eseg":
             # a File Data PDU with an empty payload (legal, never stores anything)
             pdus = [FileDataPdu(conf(), FileDataParams(b"", min(op[1] * seg, size)))]
